@@ -396,3 +396,28 @@ func EventsDigest(evs []abci.Event) string {
 	}
 	return hex.EncodeToString(h.Sum(nil))
 }
+
+// Query sends a request through the application's registered gRPC query router (the same route
+// an ABCI query takes), e.g. "/noble.orbiter.component.forwarder.v1.Query/PausedCrossChains".
+func (w *World) Query(ctx sdk.Context, path string, req interface{ Marshal() ([]byte, error) }, resp interface{ Unmarshal([]byte) error }) (err error) {
+	h := w.App.GRPCQueryRouter().Route(path)
+	if h == nil {
+		return fmt.Errorf("harness: no query handler registered for %s", path)
+	}
+	bz, err := req.Marshal()
+	if err != nil {
+		return fmt.Errorf("harness: %w", err)
+	}
+	defer func() {
+		if r := recover(); r != nil {
+			err = fmt.Errorf("query %s panicked: %v", path, r)
+		}
+	}()
+	// Queries run on their own branch with a fresh event manager, as baseapp runs them.
+	qctx, _ := ctx.CacheContext()
+	res, err := h(qctx.WithEventManager(sdk.NewEventManager()), &abci.RequestQuery{Data: bz, Path: path})
+	if err != nil {
+		return err
+	}
+	return resp.Unmarshal(res.Value)
+}
